@@ -26,6 +26,7 @@ def run(chk):
     a64common.rule_imm(chk, A)
     a64common.rule_validators(chk, A)
     a64common.rule_tables(chk, A)
+    a64common.rule_mem_index(chk, A)
     from lib import relocrules
     relocrules.bound_unbound(chk, [emit])
     from lib import opkind
